@@ -44,7 +44,7 @@ def run(prop, tier, seed):
     for pi, (profile, frac) in enumerate(profiles):
         cp = os.path.join(wd, f"cases-{profile}.ndjson")
         V.gv(["q", "--mode", mode, "--profile", profile, "--seed", seed * 10 + pi, "--graphs", max(5, int(sizes[0] * frac)), "--queries", sizes[1],
-              "--maxn", 6, "--maxe", 9, "--out", cp], timeout=3000)
+              "--maxn", 6, "--maxe", 9, "--out", cp] + (["--gremlin"] if prop == "C08" else []), timeout=3000)
         cases = V.read_ndjson(cp)
         # validate in batches (TLC parses the whole file)
         for b in range(0, len(cases), 6000):
